@@ -40,7 +40,8 @@ type Opts struct {
 	WebhookRefs    bool     // allow @webhook references after a wait (C02 excludes them)
 	Templates      []string // extra templates for action texts
 	ResultNames    []string
-	NoVariableRefs bool // no name_match (expression) group/label references
+	NoVariableRefs bool     // no name_match (expression) group/label references
+	WebhookCmds    []string // extra mock webhook commands (e.g. casevariant)
 }
 
 // World is a generated asset document plus the indexes the scenario generator needs.
@@ -351,7 +352,7 @@ func (g *gen) action(flowType string, flowUUIDs []string, flowNames []string) M 
 		}
 	case "call_webhook":
 		a["method"] = rapid.SampledFrom([]string{"GET", "POST"}).Draw(g.t, "method")
-		a["url"] = "http://mock/?cmd=" + rapid.SampledFrom([]string{"json", "json", "text", "empty", "error500", "connerr", "big", "bigjson", "badjson", "array", "nested"}).Draw(g.t, "cmd")
+		a["url"] = "http://mock/?cmd=" + rapid.SampledFrom(append([]string{"json", "json", "text", "empty", "error500", "connerr", "big", "bigjson", "badjson", "array", "nested"}, g.o.WebhookCmds...)).Draw(g.t, "cmd")
 		if rapid.IntRange(0, 2).Draw(g.t, "tplurl") == 0 {
 			a["url"] = a["url"].(string) + "&q=@(url_encode(contact.name))"
 		}
